@@ -535,6 +535,7 @@ impl ActionProvider for ReferenceInlineSection {
         let tree = context.collect(&key);
         Some(target_id)
             .filter(|target_id| tree.get(*target_id).is_reference())
+            .filter(|target_id| tree.get_surrounding_section_id(*target_id).is_some())
             .map(|_| Action {
                 title: "Inline section".to_string(),
                 identifier: self.identifier(),
